@@ -239,6 +239,8 @@ contract("stochastic.Stochastic.generate.finalize_mol",
          ensures=list(_FIN), labels={**_FIN, **_STOCH_REQ, **_T_F0, **_T_F1, **_T_F2, **_T_F3, **_T_F4, "end_groups_are_leaves(self)": "inv-end-groups-have-one-descriptor"},
          raises_may={"RuntimeError": "True", "ValueError": "True", "IndexError": "True", "TypeError": "True"},
          assert_at={_F0: list(_T_F0), _F1: list(_T_F1), _F2: list(_T_F2), _F3: list(_T_F3), _F4: list(_T_F4)},
+         # the representation invariant after a capping step is the callee's own postcondition: its proof needs no other quantified fact
+         uses={"loop1:0": [_AO + "representation-invariant"]},
          ghost_before={_F0: ["at_site_choices = choices"], _F1: ["at_site_choices = choices"], _F2: ["at_site_choices = choices"]},
          clause_props={**{l: ["C08"] for l in list(_T_F0.values()) + list(_T_F1.values()) + list(_T_F2.values()) + list(_T_F3.values())}, **{l: ["C04"] for l in _T_F4.values()},
                        "no-unit-and-no-draw-while-capping": ["C07"], "recorded-units-unchanged": ["C07"], "variant": ["C06"],
@@ -250,7 +252,7 @@ contract("stochastic.Stochastic.generate.finalize_mol",
          loops={1: dict(anchor="len(my_mol.bond_descriptors) > 0",
                         modifies=["MolGen._mol@my_mol", "MolGen.graph@my_mol", "list@my_mol.bond_descriptors"],
                         ghost_modifies=["bonds", "bond_a", "bond_b", "bond_t", "at_site_choices", "choices", "last_p", "last_n", "last_pick", "last_rng", "last_cand", "last_norm"],
-                        inv=["my_mol is entry(my_mol) and molgen_wf(my_mol) and weights_ok(my_mol.bond_descriptors)",
+                        inv=["molgen_wf(my_mol)", "weights_ok(my_mol.bond_descriptors)",
                              "implies(not is_none(terminal_bond), terminal_bond.weight >= 0 and desc_wf(my_mol, terminal_bond) and preexisting(terminal_bond) and "
                              "forall(lambda k: implies(0 <= k and k < len(my_mol.bond_descriptors), my_mol.bond_descriptors[k] is not terminal_bond)))",
                              "iff(is_none(terminal_bond), self.right_terminal.descriptor == '')"],
